@@ -895,13 +895,13 @@ func containsSym(t *Term, name string) bool {
 
 // indexShift looks for an array read select(A, X + v) in t where v is the bound
 // variable and X does not contain it; returns X (the first such), or nil.
-func indexShift(t *Term, v string) *Term {
-	var res *Term
+// indexShifts looks for array reads select(A, X + v) in t where v is the bound
+// variable and X does not contain it; returns the distinct X (Int(0) for a bare index).
+func indexShifts(t *Term, v string) []*Term {
+	var res []*Term
+	seen := map[string]bool{}
 	var rec func(t *Term)
 	rec = func(t *Term) {
-		if res != nil {
-			return
-		}
 		if t.Op == "select" && t.Args[1].Sort == SInt && containsSym(t.Args[1], v) {
 			terms, cst := summands(t.Args[1])
 			var rest []*Term
@@ -916,13 +916,15 @@ func indexShift(t *Term, v string) *Term {
 					rest = append(rest, s)
 				}
 			}
-			if ok && n == 1 && (len(rest) > 0 || cst.Sign() != 0) {
+			if ok && n == 1 {
 				x := BigInt(cst)
 				for _, r := range rest {
 					x = Add(x, r)
 				}
-				res = x
-				return
+				if !seen[x.String()] && len(res) < 3 {
+					seen[x.String()] = true
+					res = append(res, x)
+				}
 			}
 		}
 		for _, a := range t.Args {
